@@ -27,11 +27,13 @@ def oracle(ctx, specs, k, rnd, dups):
                             f"value {s} not a member of inferred {show(T)} (k={k}); innermost rejected: {rej[0]} {rej[1]!r}")
     importable = "twin" not in repr(specs)  # two classes that print alike cannot both be found again by module + qualname
     try:
-        Ts = tinfer.infer_via_store([vals.build(s) for s in specs], k) if importable else T
+        vstore = [vals.build(s) for s in specs]
+        Ts, kept = tinfer.infer_via_store_kept(vstore, k) if importable else (T, vs)
     except Exception as e:
         return ctx.fail(f"C04/inference-raises:{type(e).__name__}", [specs, k, "via-store"], "merging decoded per-value types: " + repr(e))
-    for s, v in zip(specs, vs):
-        if not conforms(v, Ts):
+    kept_ids = {id(x) for x in kept}
+    for s, v in zip(specs, vstore if importable else vs):
+        if id(v) in kept_ids and not conforms(v, Ts):
             return ctx.fail("C04/value-not-admitted", [specs, k, "via-store"],
                             f"value {s} not a member of {show(Ts)} merged from the decoded per-value types (k={k})")
     if vals.has_repeated_container(specs):
